@@ -305,6 +305,7 @@ class Scenario:
             apply_ops(cal0, sc["pre"])
             save(cal0, self.old)
             self.v0, self.rows0, self.h0 = full_view(cal0), csv_rows(cal0), h5_rows(cal0)
+            self.cal0 = copy.deepcopy(cal0)        # to re-commit the previous checkpoint in place (see run_event)
         else:
             self.old.mkdir()
         apply_ops(cal, sc["mid"])
@@ -348,6 +349,14 @@ class Scenario:
 
     def run_event(self, i):
         d = self.fresh_work()
+        if self.has_prev and i % 2 == 0:
+            # half of the crash points: the previous checkpoint is committed by a real save into this very folder, in this
+            # very process, as it is when a calibration runs - anything the library remembers per folder is then in play
+            shutil.rmtree(d)
+            save(self.cal0, d)
+            if classify(d, self.v0, self.v1)[0] != "Old":
+                shutil.rmtree(d)
+                shutil.copytree(self.old, d)
         fs = FaultFS(d, fail_at=i)
         raised = False
         try:
